@@ -401,6 +401,30 @@ func c11Check(c *Ctx, cs c11Case) *Failure {
 	if !projectsEqual(a, b) {
 		return failf("c11:implicit-differs-from-explicit:"+cs.Rule+":"+diffSig(a, b), "rule %s placement %s: leaving the default implicit and writing it out give different projects (-implicit +explicit):\n%s\n--- implicit\n%s--- explicit\n%s", cs.Rule, cs.Placement, projectDiff(a, b), desc(cs.A), desc(cs.B))
 	}
+	// the defaults do not hinge on the later steps a caller may switch off: the same pair once more without path
+	// resolution (not for the rules about files, which would then be looked up in the process directory)
+	if !strings.Contains(desc(cs.A)+desc(cs.B), "_file") {
+		la, lb := cs.A, cs.B
+		la.Opts.NoResolvePaths, lb.Opts.NoResolvePaths = true, true
+		ra2, rb2 := load(la), load(lb)
+		if ra2.Panic != nil {
+			return ra2.Panic
+		}
+		if rb2.Panic != nil {
+			return rb2.Panic
+		}
+		if (ra2.Err == nil) != (rb2.Err == nil) {
+			return failf("c11:implicit-differs-from-explicit:"+cs.Rule+":without-path-resolution", "rule %s placement %s without path resolution: implicit: %v, explicit: %v", cs.Rule, cs.Placement, ra2.Err, rb2.Err)
+		}
+		if ra2.Err == nil {
+			c.Label("also-without-path-resolution")
+			normalizeZeroPtrs(reflect.ValueOf(ra2.Project))
+			normalizeZeroPtrs(reflect.ValueOf(rb2.Project))
+			if !projectsEqual(ra2.Project, rb2.Project) {
+				return failf("c11:implicit-differs-from-explicit:"+cs.Rule+":without-path-resolution", "rule %s placement %s, loaded without path resolution: leaving the default implicit and writing it out give different projects (-implicit +explicit):\n%s\n--- implicit\n%s--- explicit\n%s", cs.Rule, cs.Placement, projectDiff(ra2.Project, rb2.Project), desc(cs.A), desc(cs.B))
+			}
+		}
+	}
 	return nil
 }
 
